@@ -555,3 +555,41 @@ func ReturnsNilError(r *ssa.Return) bool {
 	}
 	return IsNilConst(ReturnValue(r, len(r.Results)-1))
 }
+
+// ControlDeps returns the If instructions block b is (transitively) control
+// dependent on: b post-dominates (or is) a successor of the If's block but does
+// not post-dominate the If's block itself.
+func (p *Program) ControlDeps(b *ssa.BasicBlock) []*ssa.If {
+	fn := b.Parent()
+	pd := p.PostDominators(fn)
+	seen := map[*ssa.BasicBlock]bool{}
+	var out []*ssa.If
+	var walk func(x *ssa.BasicBlock)
+	walk = func(x *ssa.BasicBlock) {
+		if seen[x] {
+			return
+		}
+		seen[x] = true
+		for _, a := range fn.Blocks {
+			ifi := IfOf(a)
+			if ifi == nil || a == x && false {
+				continue
+			}
+			if pd.sets[a.Index][x.Index] && a != x {
+				continue // x post-dominates a: not dependent on a's branch
+			}
+			dep := false
+			for _, s := range a.Succs {
+				if s == x || pd.sets[s.Index][x.Index] {
+					dep = true
+				}
+			}
+			if dep {
+				out = append(out, ifi)
+				walk(a)
+			}
+		}
+	}
+	walk(b)
+	return out
+}
